@@ -346,6 +346,9 @@ class _TextualFinder:
             elif isinstance(node, ast.Attribute) and node.attr == self.name:
                 assert node.end_col_offset is not None
                 yield node.end_col_offset - len(self.name)
+            elif isinstance(node, (ast.keyword, ast.arg)) and node.arg == self.name:
+                # keyword arguments and lambda parameters are not Name nodes
+                yield node.col_offset
 
     def _normal_search(self, source: str) -> Iterator[int]:
         current = 0
